@@ -272,11 +272,7 @@ func (w *World) Vote(method string, payload []byte) *relayertypes.Votes {
 // refBlock builds the reference Bitcoin block for height h: coinbase, deposit
 // transactions, and the candidate transactions of all open withdrawal batches.
 func (w *World) refBlock(h uint64) *sim.BtcBlock {
-	txs := [][]byte{sim.CoinbaseTx(uint32(h), sim.BtcOut{Value: 50, Script: sim.RefSystemScript(w.N.Cfg.BtcKey)})}
-	for i := 1; i <= depositsPerBlock; i++ {
-		evm := common.BytesToAddress([]byte{byte(h), byte(i)})
-		txs = append(txs, sim.BtcTx(uint32(h*100)+uint32(i), sim.BtcOut{Value: int64(20000 + i), Script: sim.RefDepositScriptV0(w.N.Cfg.BtcKey, evm.Bytes())}))
-	}
+	txs := refTxs(w.N.Cfg.BtcKey, h)
 	pids := make([]uint64, 0, len(w.Bot.Batches))
 	for pid := range w.Bot.Batches {
 		pids = append(pids, pid)
@@ -293,6 +289,43 @@ func (w *World) refBlock(h uint64) *sim.BtcBlock {
 		}
 	}
 	return sim.NewBtcBlock(h, sim.DSHA([]byte{byte(h - 1)}), txs)
+}
+
+// refTxs: the coinbase (whose second output is itself a deposit, claimable once 100 voted blocks lie
+// above it) and the deposit transactions of the reference block at height h.
+func refTxs(key sim.BtcKey, h uint64) [][]byte {
+	cbEvm := common.BytesToAddress([]byte{byte(h), 0})
+	txs := [][]byte{sim.CoinbaseTx(uint32(h), sim.BtcOut{Value: 50, Script: sim.RefSystemScript(key)}, sim.BtcOut{Value: 20000, Script: sim.RefDepositScriptV0(key, cbEvm.Bytes())})}
+	for i := 1; i <= depositsPerBlock; i++ {
+		evm := common.BytesToAddress([]byte{byte(h), byte(i)})
+		txs = append(txs, sim.BtcTx(uint32(h*100)+uint32(i), sim.BtcOut{Value: int64(20000 + i), Script: sim.RefDepositScriptV0(key, evm.Bytes())}))
+	}
+	return txs
+}
+
+// NewWorldPrevoted boots a chain on which the n reference blocks above the configured tip are
+// voted already at genesis (so that the coinbase of the lowest one is mature from the start).
+func NewWorldPrevoted(cfg *sim.GenesisCfg, n int) (*World, error) {
+	first := cfg.BtcTip + 1
+	var blocks []*sim.BtcBlock
+	var hashes [][]byte
+	for i := 0; i < n; i++ {
+		h := first + uint64(i)
+		b := sim.NewBtcBlock(h, sim.DSHA([]byte{byte(h - 1)}), refTxs(cfg.BtcKey, h))
+		blocks = append(blocks, b)
+		hashes = append([][]byte{b.Hash()}, hashes...) // from the tip downward
+	}
+	cfg.BtcHashes = append(hashes, cfg.BtcHashes...)
+	cfg.BtcTip += uint64(n)
+	w, err := NewWorld(cfg)
+	if err != nil {
+		return nil, err
+	}
+	for _, b := range blocks {
+		w.Bot.Blocks[b.Height] = b
+	}
+	w.Bot.DepCursor = [2]uint64{first, 1}
+	return w, nil
 }
 
 // BuildTx turns a "tx:*" event into a relayer message (nil if not enabled in this state).
@@ -364,6 +397,22 @@ func (w *World) BuildMsg(e Event) (msg sdk.Msg, commit func()) {
 	case "tx:deposits":
 		var deps []*bitcointypes.Deposit
 		hdrs := map[uint64]*bitcointypes.BlockHeader{}
+		if e.Var == "mature-coinbase" {
+			// the deposit made by the coinbase of the block that has exactly 100 voted blocks above it
+			tip := w.BtcTip()
+			if tip < 100 {
+				return nil, nil
+			}
+			b, ok := w.Bot.Blocks[tip-100]
+			if !ok {
+				return nil, nil
+			}
+			evm := common.BytesToAddress([]byte{byte(b.Height), 0})
+			d := &bitcointypes.Deposit{Version: 0, BlockNumber: b.Height, TxIndex: 0, NoWitnessTx: b.Txs[0], OutputIndex: 1,
+				IntermediateProof: b.Proof(0), EvmAddress: evm.Bytes(), RelayerPubkey: w.N.Cfg.BtcKey.Public()}
+			return &bitcointypes.MsgNewDeposits{Proposer: rel.Proposer, Deposits: []*bitcointypes.Deposit{d},
+				BlockHeaders: []*bitcointypes.BlockHeader{{Height: b.Height, Raw: b.Header}}}, func() {}
+		}
 		cur := w.Bot.DepCursor
 		for len(deps) < e.N {
 			b, ok := w.Bot.Blocks[cur[0]]
@@ -735,6 +784,10 @@ func (w *World) ApplyReq(e Event) (commit func()) {
 		case "conf-6":
 			el.NextBridge.Confirmation = append(el.NextBridge.Confirmation, &goattypes.ConfirmationNumberRequest{Number: 6})
 		}
+		return func() {}
+	case "req:threshold":
+		// the threshold of the native token, in whole units (0: no token has a threshold any more)
+		el.NextLocking.UpdateThresholds = append(el.NextLocking.UpdateThresholds, &goattypes.UpdateTokenThresholdRequest{Token: common.Address{}, Threshold: new(big.Int).Mul(big.NewInt(int64(e.N)), big.NewInt(1e18))})
 		return func() {}
 	case "req:weight":
 		el.NextLocking.UpdateWeights = append(el.NextLocking.UpdateWeights, &goattypes.UpdateTokenWeightRequest{Token: common.Address{}, Weight: uint64(e.N)})
